@@ -10,6 +10,41 @@ ops:  A<id> accept() call reaches the channel | a<id> accept future dropped | p<
 """
 
 
+def raw_datagram(rng, known_keys):
+    """Raw bytes as they come off the wire (the dispatcher itself parses them): garbage, truncated headers, bad
+    version / type nibbles, extension chains that do not fit, payload on a non-data packet, empty ST_DATA - and
+    well-formed packets (with unknown extensions) aimed at live and at unknown connection ids."""
+    k = rng.below(10)
+    if k == 0:
+        return "".join("%02x" % rng.below(256) for _ in range(rng.choice([1, 2, 19, 20, 21, 40])))
+    # (well-formed raw SYNs would open connections behind the back of this generator's bookkeeping: SYNs come as D ops)
+    ty = rng.choice([0, 1, 2, 3]) if k != 1 else rng.choice([5, 7, 15])
+    ver = 1 if k != 2 else rng.choice([0, 2, 15])
+    if known_keys and rng.below(3):
+        conn = rng.choice(known_keys)[1]
+        if rng.below(4) == 0:
+            conn = (conn + rng.choice([1, 65535])) % 65536
+    else:
+        conn = rng.below(65536)
+    seq, ack = rng.below(65536), rng.below(65536)
+    exts = []
+    for _ in range(rng.choice([0, 0, 0, 1, 1, 2, 3])):
+        exts.append((rng.choice([1, 2, 3, 255]), rng.choice([0, 1, 4, 8, 36, 254, 255])))
+    b = [((ty << 4) | ver) & 0xFF, exts[0][0] if exts else 0]
+    b += [conn >> 8, conn & 255] + [rng.below(256) for _ in range(8)] + [0, 16, 0, 0]
+    b += [seq >> 8, seq & 255, ack >> 8, ack & 255]
+    for i, (eid, ln) in enumerate(exts):
+        nxt = exts[i + 1][0] if i + 1 < len(exts) else 0
+        b += [nxt, ln] + [rng.below(256) for _ in range(ln)]
+    if k == 3 and len(b) > 20:
+        b = b[:rng.range(20, len(b) - 1)]              # extension chain cut short
+    payload = rng.choice([0, 0, 1, 5]) if ty != 0 else rng.choice([0, 1, 7, 100])
+    if k == 4:
+        payload = 3 if ty != 0 else 0                  # payload where none belongs / none where one is needed
+    b += [rng.below(256) for _ in range(payload)]
+    return "".join("%02x" % x for x in b)
+
+
 def gen_case(rng, big=False):
     """Open loop, but with enough bookkeeping that at most one source is usually ready when a
     run_once is requested (several ready sources make the implementation's select! pick at
@@ -117,7 +152,7 @@ def gen_case(rng, big=False):
             ops.append(f"D{addr},{t},{conn},{rng.below(65536)},{rng.below(65536)}")
             ops.append("Rr")
         elif r < 80:
-            ops.append(f"G{rng.choice([5, 6])},{rng.choice(['00', '2100', '0102030405060708090a0b0c0d0e0f1011121314', '51' + '00' * 19])}")
+            ops.append(f"G{rng.choice([5, 6])},{raw_datagram(rng, known_keys)}")
             ops.append("Rr")
         elif r < 86 and known_keys:
             addr, conn = rng.choice(known_keys)
